@@ -353,13 +353,13 @@ func (b *gb) helperSchema(file string, depth int) *comp {
 // placeIn stores a component in a given file (nested refs inside body are relative to it).
 func (b *gb) placeIn(file, kind string, body *V) *comp {
 	id := b.id()
-	name := fmt.Sprintf("%s%d", strings.ToUpper(kind[:1])+kind[1:3], id)
+	name := fmt.Sprintf("%s%dx", strings.ToUpper(kind[:1])+kind[1:3], id) // the letter keeps ogen's "<name><variant index>" names apart from component names
 	container := "components"
 	if file != b.root {
 		container = "defs"
 	} else if b.rng.Chance(20) {
 		container = "x-defs"
-		name = ev.Pick(b.rng, weirdNames) + fmt.Sprint(id)
+		name = ev.Pick(b.rng, weirdNames) + fmt.Sprint(id) + "x"
 	}
 	f := b.fileRoot(file)
 	set(ensurePath(f, container, plural[kind]), name, body)
@@ -989,7 +989,7 @@ func (b *gb) pruneEmpty(f *V, k1, k2 string) {
 func (b *gb) alias(target *comp, file, container string) *comp {
 	id := b.id()
 	kind := target.kind
-	name := fmt.Sprintf("%sAl%d", strings.ToUpper(kind[:1])+kind[1:3], id)
+	name := fmt.Sprintf("%sAl%dx", strings.ToUpper(kind[:1])+kind[1:3], id)
 	f := b.fileRoot(file)
 	set(ensurePath(f, container, plural[kind]), name, b.ref(target, file))
 	if kind == "pathItem" && file == b.root && container == "components" {
